@@ -232,13 +232,13 @@ func (c *compiler) evalUserFunction(node *userFunction, args []ast.Expression) (
 	octx := c.ctx
 	defer func() { c.ctx = octx }()
 
-	if len(args) < len(node.Parameters) {
-		return nil, fmt.Errorf("too few arguments (%d for %d)", len(args), len(node.Parameters))
+	if len(args) < len(node.parameters) {
+		return nil, fmt.Errorf("too few arguments (%d for %d)", len(args), len(node.parameters))
 	}
 
 	// all arguments are evaluated in the caller's scope before any parameter is bound
-	vals := make([]interface{}, len(node.Parameters))
-	for i := range node.Parameters {
+	vals := make([]interface{}, len(node.parameters))
+	for i := range node.parameters {
 		v, err := c.evalExpression(args[i])
 		if err != nil {
 			return nil, err
@@ -248,11 +248,11 @@ func (c *compiler) evalUserFunction(node *userFunction, args []ast.Expression) (
 	}
 
 	c.ctx = c.ctx.New()
-	for i, p := range node.Parameters {
+	for i, p := range node.parameters {
 		c.ctx.Set(p.Value, vals[i])
 	}
 
-	res, err := c.evalBlockStatement(node.Block)
+	res, err := c.evalBlockStatement(node.block)
 	if err != nil {
 		return nil, err
 	}
@@ -286,7 +286,7 @@ func flattenReturn(ro returnObject, acc []interface{}) []interface{} {
 func (c *compiler) evalFunctionLiteral(node *ast.FunctionLiteral) (interface{}, error) {
 	params := node.Parameters
 	block := node.Block
-	return &userFunction{Parameters: params, Block: block}, nil
+	return &userFunction{parameters: params, block: block}, nil
 }
 
 func (c *compiler) evalPrefixExpression(node *ast.PrefixExpression) (interface{}, error) {
